@@ -122,6 +122,15 @@ func runText(s *Session) string {
 			how = fmt.Sprintf("%s %s: %s (%s -> %s)", kind, "identifier", how, tok, mut)
 		}
 	}
+	if how == "" && t.Chance(1, 4) {
+		// another fault of a text channel: a value replaced by null
+		if i := nthObjectStart(js, t.Choose(40)); i > 0 {
+			if j := matchingBrace(js, i); j > i {
+				sent = append(append(append([]byte(nil), js[:i]...), []byte("null")...), js[j+1:]...)
+				how, kind = fmt.Sprintf("the object value at offset %d replaced by null", i), "null"
+			}
+		}
+	}
 	s.plan.chunk = pick(t, "all", "random", "small")
 	server := func(e *endpoint, c *Conn) {
 		defer close(e.done)
@@ -168,6 +177,10 @@ func runText(s *Session) string {
 			return
 		}
 		e.inc("text.harmed")
+		if kind == "null" {
+			// whatever the parser makes of it, the value it returns must be usable
+			return
+		}
 		fixedLength := kind != "unlock key" && kind != "protocol version"
 		if err == nil && !bytes.Equal(back, js) && (kind == "address" || (fixedLength && len(sent) != len(js))) {
 			// a checksummed address with any character altered, or any identifier
@@ -213,3 +226,44 @@ func normaliseTimes(v reflect.Value) {
 var reFixedKey = regexp.MustCompile(`"(account|accounts|hostKey|renterKey|renterPublicKey|hostPublicKey|publicKey|pool)":(\[("[^"]*",)*)?$`)
 
 var _ = sim.HashU64
+
+// nthObjectStart returns the offset of the n-th '{' (modulo their number) that
+// is not the first byte and not inside a string.
+func nthObjectStart(js []byte, n int) int {
+	var starts []int
+	in := false
+	for i := 0; i < len(js); i++ {
+		switch c := js[i]; {
+		case in && c == '\\':
+			i++
+		case c == '"':
+			in = !in
+		case !in && c == '{' && i > 0:
+			starts = append(starts, i)
+		}
+	}
+	if len(starts) == 0 {
+		return -1
+	}
+	return starts[n%len(starts)]
+}
+
+func matchingBrace(js []byte, i int) int {
+	depth, in := 0, false
+	for ; i < len(js); i++ {
+		switch c := js[i]; {
+		case in && c == '\\':
+			i++
+		case c == '"':
+			in = !in
+		case !in && c == '{':
+			depth++
+		case !in && c == '}':
+			depth--
+			if depth == 0 {
+				return i
+			}
+		}
+	}
+	return -1
+}
